@@ -171,7 +171,49 @@ func truncRat(r *big.Rat) *big.Int {
 
 // ---------- generators ----------
 
+// boundaryFractions is the pool class "fraction attached to an integer boundary": for every
+// boundary B in +-{2^31, 2^32, 2^53, 2^63, 2^64, 2^127, 10^18, 10^19, 10^30} the values
+// B+d for d in {0, +-0.25, +-0.5, +-1, +-1.5} and B*(1 +- 2^-70), each (a) parsed from decimal text
+// at 512 bits and (b) as the result of arithmetic on the boundary. These are non-integers whose
+// whole part does not fit the precision (or the machine integer width) a shortcut might assume.
+var boundaryFractionPool []cty.Value
+
+func boundaryFractions() []cty.Value {
+	if boundaryFractionPool != nil {
+		return boundaryFractionPool
+	}
+	pow := func(b, e int64) *big.Int { return new(big.Int).Exp(big.NewInt(b), big.NewInt(e), nil) }
+	bounds := []*big.Int{pow(2, 31), pow(2, 32), pow(2, 53), pow(2, 63), pow(2, 64), pow(2, 127), pow(10, 18), pow(10, 19), pow(10, 30)}
+	deltas := []*big.Rat{big.NewRat(0, 1), big.NewRat(1, 4), big.NewRat(-1, 4), big.NewRat(1, 2), big.NewRat(-1, 2), big.NewRat(1, 1), big.NewRat(-1, 1), big.NewRat(3, 2), big.NewRat(-3, 2)}
+	eps := new(big.Rat).SetFrac(big.NewInt(1), pow(2, 70))
+	var p []cty.Value
+	for _, b := range bounds {
+		for _, sign := range []int64{1, -1} {
+			br := new(big.Rat).SetInt(new(big.Int).Mul(b, big.NewInt(sign)))
+			for _, d := range deltas {
+				x := new(big.Rat).Add(br, d)
+				// (a) parsed from its exact decimal text (all deltas are multiples of 1/4)
+				p = append(p, cty.MustParseNumberVal(x.FloatString(2)))
+				// (b) through arithmetic: boundary (parsed) plus the delta (a float64-derived number)
+				df, _ := d.Float64()
+				p = append(p, cty.MustParseNumberVal(br.FloatString(0)).Add(cty.NumberFloatVal(df)))
+			}
+			for _, s := range []int64{1, -1} {
+				f := new(big.Rat).Add(big.NewRat(1, 1), new(big.Rat).Mul(eps, big.NewRat(s, 1)))
+				x := new(big.Rat).Mul(br, f)
+				p = append(p, cty.NumberVal(new(big.Float).SetPrec(512).SetRat(x)))
+			}
+		}
+	}
+	boundaryFractionPool = p
+	return p
+}
+
 func genNum(r *core.Rand) (cty.Value, string) {
+	if r.Chance(1, 6) {
+		p := boundaryFractions()
+		return p[r.Intn(len(p))], "boundary-fraction"
+	}
 	c := gen.Number(r)
 	return c.V, c.Class
 }
